@@ -644,7 +644,7 @@ theorem src_terminal (cfg : Cfg) {s : St} {g : Nat} (t : Ev) (ht : t.isTerminal 
       have := (upLive_iff hi g hg).mpr ⟨hsub, ha⟩
       rw [hno g hg] at this; cases this
   rw [hstep]
-  obtain ⟨hinv, hng, _, hut', _, hsj⟩ := inv_pTerm (cfg := cfg) t ht hi hsub ha
+  obtain ⟨hinv, hng, _, hut', _, hsj, _⟩ := inv_pTerm (cfg := cfg) t ht hi hsub ha
   have hut := hut' (by simp)
   simp only [Pend.afterTerm_idle] at hinv
   have hnotact : ¬ ∃ g', (pTerm cfg g t s).subject = some g' ∧ GenActive Pend.idle (pTerm cfg g t s) g' := by
